@@ -649,6 +649,10 @@ func writeEvidence(ck *Check, tier string, seed int64, r *Result, violations int
 	}
 	b, _ := json.MarshalIndent(ev, "", " ")
 	dir := filepath.Join(VerifDir(), "evidence")
+	if repo := os.Getenv("VERIF_REPO"); repo != "" && repo != "/repo" {
+		// a run against a scratch copy (seeded change, mutant) says nothing about /repo: keep it out of the evidence directory
+		dir = filepath.Join(VerifDir(), ".work", "evidence-scratch")
+	}
 	os.MkdirAll(dir, 0o755)
 	os.WriteFile(filepath.Join(dir, ck.ID+".json"), append(b, '\n'), 0o644)
 }
